@@ -29,6 +29,7 @@ const MainName = "<main>"
 func CreateBytecodeCompiler(parent *BytecodeCompiler, checker types.Checker, loc *position.Location, errors *diagnostic.SyncDiagnosticList, additionalAbortChecks bool) *BytecodeCompiler {
 	compiler := NewBytecodeCompiler(loc.FilePath, topLevelBytecodeCompilerMode, loc, checker, newBytecodeGlobalData())
 	compiler.additionalAbortChecks = additionalAbortChecks
+	compiler.globalData.additionalAbortChecks = additionalAbortChecks
 	compiler.Errors = errors
 	compiler.parent = parent
 	return compiler
@@ -49,6 +50,7 @@ func CreateBreakpointCompiler(checker types.Checker, context *BytecodeBreakpoint
 func (c *BytecodeCompiler) CreateMainCompiler(checker types.Checker, loc *position.Location, errors *diagnostic.SyncDiagnosticList, output io.Writer, additionalAbortChecks bool) Compiler {
 	compiler := NewBytecodeCompiler(loc.FilePath, topLevelBytecodeCompilerMode, loc, checker, newBytecodeGlobalData())
 	compiler.additionalAbortChecks = additionalAbortChecks
+	compiler.globalData.additionalAbortChecks = additionalAbortChecks
 	compiler.predefinedLocals = c.maxLocalIndex + 1
 	compiler.scopes = c.scopes
 	compiler.lastLocalIndex = c.lastLocalIndex
@@ -248,6 +250,9 @@ func newBytecodeCall(methodName value.Symbol, bytecode *vm.BytecodeFunction, off
 
 type bytecodeGlobalData struct {
 	callsToOptimise *concurrent.Slice[*bytecodeCall]
+	// shared by every compiler of a compilation unit, so that methods, closures and
+	// namespace bodies get the same abort checks as the top level
+	additionalAbortChecks bool
 }
 
 func newBytecodeGlobalData() *bytecodeGlobalData {
@@ -299,6 +304,9 @@ func NewBytecodeCompiler(name string, mode bytecodeCompilerMode, loc *position.L
 		checker:        checker,
 		globalData:     globalData,
 		Errors:         diagnostic.NewSyncDiagnosticList(),
+	}
+	if globalData != nil {
+		c.additionalAbortChecks = globalData.additionalAbortChecks
 	}
 	// reserve the first slot on the stack for `self`
 	c.defineLocal("$self", position.DefaultLocation)
@@ -1044,6 +1052,12 @@ func (c *BytecodeCompiler) compileMethodBody(location *position.Location, parame
 				c.emit(location.EndPos.Line, bytecode.RETURN)
 			}
 			c.bytecode.SetParameterCount(paramCount)
+
+			if c.additionalAbortChecks {
+				// poll on every activation, so that recursion (including tail calls,
+				// which never reach the check before RETURN) can be cancelled
+				c.emit(location.StartPos.Line, bytecode.CHECK_ABORT)
+			}
 
 			c.compileStatements(body, location, false)
 		},
@@ -2101,6 +2115,11 @@ func (c *BytecodeCompiler) compileContinueExpressionNode(node *ast.ContinueExpre
 		} else {
 			c.compileNode(node.Value, false)
 		}
+	}
+
+	if c.additionalAbortChecks {
+		// `continue` jumps past the check at the end of the loop body
+		c.emit(location.StartPos.Line, bytecode.CHECK_ABORT)
 	}
 
 	finallyCount := c.countFinallyInLoop(labelName)
